@@ -38,6 +38,14 @@ SPEC = Spec(
                   "thorough": "both store classes x 3 link types x state on/off; 3 keys (duplicate content)"},
           smoke=[{"args": N_SMOKE, "cube": {"cls": "local", "link": "copy"}}, {"args": N_SMOKE, "cube": {"cls": "base", "link": "hardlink", "state": True}}],
           encodes=ENC, stubs=("model filesystem / model os", "model hash-state tables", "target staged and transferred by the real build/transfer outside tracing")),
+        H("history", "vf.harness.c05_checkout", "h_history", lambda tier: [dict(cls=c, link=l, state=st, nkeys=2) for c, l, st in
+                                                                        ((("local", "copy", False), ("base", "hardlink", True)) if tier == "quick" else
+                                                                         [(c, l, st) for c in ("local", "base") for l in LINKS for st in (False, True)])],
+          timeout={"quick": 300, "thorough": 900}, real=True,
+          bounds={"quick": "one process: optional first checkout, optional garbage collection of everything but the target, the user puts old / fresh / "
+                           "target bytes back at a symbolic key, then a non-forced checkout", "thorough": "all store class / link / state combinations"},
+          smoke=[{"args": dict(k=0, v=0, do_gc=True, relink=False, first=True), "cube": {"cls": "local", "link": "copy"}}],
+          encodes=ENC + ", gc.gc", stubs=("model filesystem", "model hash-state tables")),
         H("links", "vf.harness.c05_checkout", "h_links", cubes_links, timeout={"quick": 200, "thorough": 900}, real=True,
           bounds={"quick": "two tracked paths (a file, a directory of two files), histories of 2 steps over {record, modify, replace (new inode), "
                            "remove, add file inside directory}, then clean-up with a symbolic `used` subset",
